@@ -12,7 +12,7 @@ the model's own particle-frame intensity Iqac/Iqabc, evaluated through the shim 
 loop runs in C, directions and weights are supplied from here).  The order n per panel is doubled along
 a ladder until two successive orders agree to 1e-7; if the ladder ends first, the point is inconclusive.
 The model's own integration is judged by re-running the model's own Fq/Iq compiled with another
-Gauss-Legendre table (150 points, or 76 for models that already use 150): a point is decidable only if
+Gauss-Legendre table (150 points for the 76-point models, 76 points for the 150- and 20-point models): a point is decidable only if
 the two agree to 1e-6.  On decidable points the 1-D result must agree with the average to 1e-5
 (everything normalised by the SHELL volume), and so must <F^2> returned by call_Fq.
 """
@@ -64,7 +64,9 @@ def alt_gauss(info):
     g = shim.gauss_size(info)
     if g is None:
         return None
-    return 76 if g == 150 else 150
+    # 150 points for the 76-point models; 76 for those that use 150 already, and for the 20-point model
+    # (superball: a triple integral, 150^3 evaluations per q are out of reach)
+    return 150 if g == 76 else 76
 
 
 def volume_pars(info):
@@ -203,7 +205,11 @@ def run_case(case, ctx):
     with np.errstate(all="ignore"):
         Ialt = sh_alt.Fq(q, p)[1] / shell if sh_alt is not None else I1
         model_ok = np.abs(I1 - Ialt) <= MODEL_TOL * np.abs(I1)
-        ref, ref_ok, order = sphere_average(sh, q, p, LADDER[ctx.tier])
+        # the reference is only needed where the model's own integration is converged
+        ref, ref_ok, order = np.full(len(q), np.nan), np.zeros(len(q), bool), np.zeros(len(q), int)
+        use = np.flatnonzero(model_ok & np.isfinite(I1) & (I1 > 0))
+        if len(use):
+            ref[use], ref_ok[use], order[use] = sphere_average(sh, q[use], p, LADDER[ctx.tier])
     ref_I = ref / shell
     for k in range(1, len(q)):
         sub = {"q": float(q[k]), "q*size": QSIZE[k - 1] * tweak}
@@ -211,11 +217,11 @@ def run_case(case, ctx):
         if not np.isfinite(I1[k]) or I1[k] <= 0:
             r.inconc("model-not-finite-positive")
             continue
-        if not ref_ok[k]:
-            r.inconc("reference-not-converged" if model_ok[k] else "neither-converged", trans=2)
-            continue
         if not model_ok[k]:
             r.inconc("model-integration-not-converged", trans=2)
+            continue
+        if not ref_ok[k]:
+            r.inconc("reference-not-converged", trans=2)
             continue
         nt = bool(abs(I1[k] - I1[0]) > 0.01 * abs(I1[0]))
         br.append("decidable")
